@@ -88,6 +88,14 @@ pub fn scenario_case(id: u64, seed: u64, case: &Value) -> Vec<Value> {
         }
         sim.kick(d);
         pause(&mut sim, 2600);
+        if id % 3 == 0 {
+            // the announced service is registered again with changed data: while that is being probed (the schedule
+            // below falls into those 750 ms) a shutdown still owes the goodbye for what was announced
+            let again = ServiceInfo::new("_life._tcp.local.", &format!("svc{}", k), &format!("lifehost{}.local.", k), "192.168.1.10", 7000 + k as u16, &[("k", "changed")][..]).expect("ServiceInfo::new");
+            sim.register(d, again);
+            sim.kick(d);
+            pause(&mut sim, 150 + (id % 4) * 130);
+        }
         k += 10;
     }
     if hold {
